@@ -9,6 +9,10 @@ CONSTANTS
   FixOct0 = TRUE
   FixSkip = TRUE
   FixUncl = TRUE
+  FixCase = TRUE
+  FixItems = TRUE
+  Lenient <- LenNone
+  WithLex = FALSE
   Emit = FALSE
   WithBad = TRUE
 CHECK_DEADLOCK FALSE
